@@ -449,7 +449,12 @@ class SparselyBin(Factory, Container):
                     else:
                         # in practice passing on sliced arrays is faster for multi-dim histograms
                         np.equal(q, index, selection)
-                        self.bins[index]._numpy(data[selection], subweights[selection], [np.sum(selection)])
+                        if isinstance(data, dict):
+                            # a dict of columns cannot be indexed with a mask: slice every column
+                            subdata = {k: np.asarray(v)[selection] for k, v in data.items()}
+                        else:
+                            subdata = data[selection]
+                        self.bins[index]._numpy(subdata, subweights[selection], [np.sum(selection)])
 
         # no possibility of exception from here on out (for rollback)
         self.entries += float(newentries)
